@@ -24,6 +24,57 @@ theorem race_eq (s : State) (k p : Nat) (d : Bool) (dp : Nat) (o a : List Nat) (
   · simp only [Option.some.injEq] at h; rw [← h]
   · cases h
 
+/-! ### `closeHold` only sets the `closing` flag of one entry -/
+
+def markClosing (c : Nat) (e : Est) : Est := if e.id = c then { e with closing := true } else e
+
+theorem markClosing_id (c : Nat) (e : Est) : (markClosing c e).id = e.id := by unfold markClosing; split <;> rfl
+theorem markClosing_peer (c : Nat) (e : Est) : (markClosing c e).peer = e.peer := by unfold markClosing; split <;> rfl
+theorem markClosing_out (c : Nat) (e : Est) : (markClosing c e).out = e.out := by unfold markClosing; split <;> rfl
+
+theorem closeHold_est (s : State) (c : Nat) : (closeHold s c).est = s.est.map (markClosing c) := rfl
+
+theorem map_mark_ids (c : Nat) (l : List Est) : (l.map (markClosing c)).map (·.id) = l.map (·.id) := by
+  induction l with
+  | nil => rfl
+  | cons a t ih => simp [markClosing_id, ih]
+
+theorem filter_mark_len (c : Nat) (q : Est → Bool) (hq : ∀ e, q (markClosing c e) = q e) (l : List Est) :
+    ((l.map (markClosing c)).filter q).length = (l.filter q).length := by
+  induction l with
+  | nil => rfl
+  | cons a t ih =>
+    simp only [List.map_cons, List.filter_cons, hq]
+    split <;> simp [ih]
+
+theorem closeHold_idsE (s : State) (c : Nat) : idsE (closeHold s c) = idsE s := by
+  unfold idsE; rw [closeHold_est]; exact map_mark_ids c s.est
+
+theorem closeHold_numEst (s : State) (c : Nat) : (closeHold s c).numEst = s.numEst := by
+  funext p
+  unfold State.numEst
+  rw [closeHold_est]
+  exact filter_mark_len c (fun e => e.peer == p) (fun e => by simp [markClosing_peer]) s.est
+
+theorem closeHold_inv (s : State) (c : Nat) (h : Inv s) : Inv (closeHold s c) := by
+  have eE := closeHold_idsE s c
+  refine ⟨h.cPO, h.cPI, ?_, ?_, h.ndO, h.ndI, eE ▸ h.ndE, h.dOI, ?_, ?_, h.frO, h.frI, ?_⟩
+  · show s.cEO = _
+    rw [h.cEO, closeHold_est]
+    exact (filter_mark_len c (fun e => e.out) (fun e => by simp [markClosing_out]) s.est).symm
+  · show s.cEI = _
+    rw [h.cEI, closeHold_est]
+    exact (filter_mark_len c (fun e => !e.out) (fun e => by simp [markClosing_out]) s.est).symm
+  · rw [eE]; exact h.dOE
+  · rw [eE]; exact h.dIE
+  · rw [eE]; exact h.frE
+
+theorem closeHold_stOf (s : State) (c : Nat) : C01.stOf (closeHold s c) = C01.stOf s := by
+  funext x
+  unfold C01.stOf
+  rw [closeHold_idsE]
+  rfl
+
 theorem xstep_inv (s : State) (op : XOp) (h : Inv s) : Inv (xstep s op).1 := by
   cases op with
   | base o => exact step_inv s o h
@@ -34,6 +85,12 @@ theorem xstep_inv (s : State) (op : XOp) (h : Inv s) : Inv (xstep s op).1 := by
     | some r =>
       rw [race_eq s k p d dp o a r hr]
       exact abortMany_inv a _ (closeMany_inv o _ (resolveDial_inv s k p d h))
+  | closeHold c => exact closeHold_inv s c h
+  | release c =>
+    simp only [xstep, release]
+    split
+    · exact closeConn_inv s c true h
+    · exact h
 
 theorem xstep_lifecycle (s : State) (op : XOp) (h : Inv s) : C01.StepOK s (xstep s op).1 (xstep s op).2.2 := by
   cases op with
@@ -51,6 +108,12 @@ theorem xstep_lifecycle (s : State) (op : XOp) (h : Inv s) : C01.StepOK s (xstep
       have i2 := closeMany_inv o _ i1
       have h3 := C01.abortMany_lives a _ i2
       exact C01.lives_trans _ _ _ _ _ (C01.lives_trans _ _ _ _ _ h1 h2) h3
+  | closeHold c => exact C01.stepOK_of_lives _ _ _ (C01.lives_quiet _ _ _ (closeHold_stOf s c) rfl)
+  | release c =>
+    simp only [xstep, release]
+    split
+    · exact C01.stepOK_of_lives _ _ _ (C01.closeConn_lives s c true h)
+    · exact C01.stepOK_of_lives _ _ _ (C01.lives_quiet _ _ _ rfl rfl)
 
 theorem xstep_tracks (s : State) (op : XOp) (h : Inv s) : C02.Tracks s (xstep s op).1 (xstep s op).2.2 := by
   cases op with
@@ -65,6 +128,14 @@ theorem xstep_tracks (s : State) (op : XOp) (h : Inv s) : C02.Tracks s (xstep s 
       exact C02.tracks_trans _ _ _ _ _
         (C02.tracks_trans _ _ _ _ _ (C02.resolveDial_tracks s k p d) (C02.closeMany_tracks o _ i1))
         (C02.abortMany_tracks a _)
+  | closeHold c =>
+    show C02.checkNums s.numEst [] = (true, (closeHold s c).numEst)
+    rw [closeHold_numEst]; rfl
+  | release c =>
+    simp only [xstep, release]
+    split
+    · exact C02.closeConn_tracks s c true h
+    · exact C02.tracks_neutral _ _ _ rfl (by simp)
 
 theorem xstep_noLocal (s : State) (op : XOp) (h : C05.NoLocal s) : C05.NoLocal (xstep s op).1 := by
   cases op with
@@ -81,6 +152,17 @@ theorem xstep_noLocal (s : State) (op : XOp) (h : C05.NoLocal s) : C05.NoLocal (
       rw [(abortMany_frame a _).1, (closeMany_frame o _).1] at he
       rw [(abortMany_frame a _).2.1, (closeMany_frame o _).2.1]
       exact h1 e (List.mem_filter.1 he).1
+  | closeHold c =>
+    intro e he
+    show e.peer ≠ s.localPeer
+    have he' : e ∈ s.est.map (markClosing c) := he
+    obtain ⟨e0, he0, rfl⟩ := List.mem_map.1 he'
+    rw [markClosing_peer]; exact h e0 he0
+  | release c =>
+    simp only [xstep, release]
+    split
+    · exact C05.step_noLocal s (.close c) h
+    · exact h
 
 def xexec (s : State) (ops : List XOp) : State := ops.foldl (fun s o => (xstep s o).1) s
 
@@ -174,6 +256,14 @@ theorem finished_stays_finished (c : Nat) : ∀ (ops : List XOp) (s : State), In
       have hd2 : C01.stOf (xstep s o).1 c = .done := C06.endStep_done c m1 _ hd1 hs
       obtain ⟨h3, h4⟩ := ih (xstep s o).1 (xstep_inv s o h) hd2
       exact ⟨h3, by simp [xtrace, List.all_append, hno, h4]⟩
+
+/-- non-vacuity: a second connection established while the first is still closing is counted as 2 -/
+example :
+    let s0 := State.init [[0], [1], [2]]
+    let ops : List XOp := [.base (.incoming false), .base (.incoming false), .base (.resolveIn 0 2 false),
+      .closeHold 0, .base (.resolveIn 1 2 false), .release 0]
+    (xtrace s0 ops).filterMap (fun e => match e with
+      | .sEstablished _ _ _ n _ => some n | .sClosed _ _ n _ => some n | _ => none) = [1, 2, 1] := by decide
 
 /-- non-vacuity: a race in which the late abort does not prevent the establishment -/
 example :
